@@ -221,7 +221,7 @@ class World:
       return ('ck', v[1])
     if t == 'ref':
       text = '@' + '/'.join(list(v[2]) + [dotted(v[1])]) + ('()' if v[3] == 'call' else '')
-      return self.gin.parse_value(text)
+      return self.config.parse_value(text)
     if t == 'list':
       return [self.to_real(x) for x in v[1]]
     if t == 'tuple':
@@ -259,8 +259,13 @@ class World:
           return self.to_spec(x._rec)
     if callable(x):
       c = config._inverse_lookup(x, allow_decorators=True)
+      if c is None and isinstance(x, type):
+        for base in x.__mro__[1:]:
+          c = config._inverse_lookup(base, allow_decorators=True)
+          if c is not None:
+            break
       if c is not None:
-        return ['fnref', c.selector.split('.'), '?']
+        return ['fnref', c.selector.split('.'), [] if x is c.wrapper else 'scoped']
     return ['opaque', type(x).__name__]
 
   def map_to_spec(self, m):
@@ -431,6 +436,12 @@ class World:
         res['kw'] = self.map_to_spec(top.kw)
       res['ran'] = self.ran
       res['ret'] = self.to_spec(r)
+      res['evals'] = self._evals_to_spec()
+      # the consumer mutates what it received: nothing stored may change (checked by the
+      # state comparison that follows every step)
+      if top is not None:
+        for v in list(top.delivered.values()) + list(top.kw.values()) + list(top.va):
+          _mutate(v)
     except BaseException as e:  # pylint: disable=broad-except
       res['status'] = type(e).__name__
       res['msg'] = str(e)
@@ -439,9 +450,13 @@ class World:
       if m:
         res['missing'] = ast.literal_eval(m.group(2))
         res['missing_for'] = m.group(1)
-    res['evals'] = [dict(sel=r.sel.split('.'), scope=r.scope, delivered=self.map_to_spec(r.delivered),
-                         va=[self.to_spec(x) for x in r.va], kw=self.map_to_spec(r.kw)) for r in self.evals]
+    if 'evals' not in res or not res['evals']:
+      res['evals'] = self._evals_to_spec()
     return res
+
+  def _evals_to_spec(self):
+    return [dict(sel=r.sel.split('.'), scope=r.scope, delivered=self.map_to_spec(r.delivered),
+                 va=[self.to_spec(x) for x in r.va], kw=self.map_to_spec(r.kw)) for r in self.evals]
 
   # -- projection --------------------------------------------------------------
   def project(self):
@@ -465,6 +480,35 @@ class World:
                 nhooks=len(config._FINALIZE_HOOKS) - len(self._hooks_before))
 
 
+def _mutate(v, depth=0):
+  if depth > 3:
+    return
+  if isinstance(v, list):
+    for x in v:
+      _mutate(x, depth + 1)
+    v.append('MUTATED')
+  elif isinstance(v, dict):
+    for x in list(v.values()):
+      _mutate(x, depth + 1)
+    v['MUTATED'] = 'MUTATED'
+  elif isinstance(v, tuple):
+    for x in v:
+      _mutate(x, depth + 1)
+
+
+def _norm_fnref(v):
+  """Specification values -> comparison form: the scope of a delivered (uncalled) configurable is
+  only observable as 'plain wrapper' vs 'scoped wrapper'; delivered maps inside result objects are
+  sets of pairs (sorted here)."""
+  if isinstance(v, list):
+    if len(v) == 3 and v[0] == 'fnref':
+      return ['fnref', v[1], [] if v[2] == [] else 'scoped']
+    if len(v) == 4 and v[0] == 'res':
+      return ['res', v[1], v[2], sorted([_norm_fnref(x) for x in v[3]], key=core.jdump)]
+    return [_norm_fnref(x) for x in v]
+  return v
+
+
 def spec_projection(st):
   """The same projection computed from a specification state (JSON)."""
   cfg = {}
@@ -478,7 +522,7 @@ def spec_projection(st):
 
 
 def norm_pairs(x):
-  return sorted([list(e) for e in x], key=core.jdump)
+  return sorted([_norm_fnref(list(e)) for e in x], key=core.jdump)
 
 
 def compare_out(want, got):
@@ -501,7 +545,7 @@ def compare_out(want, got):
       for f in ('delivered', 'kw'):
         if norm_pairs(want[f]) != norm_pairs(got[f]):
           return (f, norm_pairs(want[f]), norm_pairs(got[f]))
-      if list(want['va']) != list(got['va']):
+      if _norm_fnref(list(want['va'])) != _norm_fnref(list(got['va'])):
         return ('va', want['va'], got['va'])
     if want['status'] == 'RuntimeError' and want['missing']:
       if list(want['missing']) != list(got['missing']):
@@ -509,7 +553,7 @@ def compare_out(want, got):
     if bool(want['ran']) != bool(got['ran']):
       return ('ran', want['ran'], got['ran'])
     we = [core.jdump(dict(sel=e['sel'], scope=e['scope'], delivered=norm_pairs(e['delivered']),
-                          va=e['va'], kw=norm_pairs(e['kw']))) for e in want['evals']]
+                          va=_norm_fnref(e['va']), kw=norm_pairs(e['kw']))) for e in want['evals']]
     ge = [core.jdump(dict(sel=e['sel'], scope=e['scope'], delivered=norm_pairs(e['delivered']),
                           va=e['va'], kw=norm_pairs(e['kw']))) for e in got['evals']]
     if want['status'] == 'ok' and we != ge:
